@@ -782,3 +782,140 @@ Proof.
   intros I H. apply b_SetInv_iff in I. destruct (cs_spec' d0 a I H) as (d' & E & I' & D).
   exists d'. split; [exact E|split; [apply b_SetInv_iff; exact I'|exact D]].
 Qed.
+
+(* ================================================================ 6. add() *)
+Definition add_spec_b : Prop :=
+  forall d e, SetInv d -> wf_elem e ->
+    exists d', set_add d e = Ok d' /\ SetInv d' /\ forall ver x, den d' ver x <-> den d ver x \/ in_elem e ver x.
+
+Lemma canon_of_ver l v : canon_nets l -> valid_ver v = true -> canon (width v) (fam_blks v l).
+Proof.
+  intros (_ & _ & C4 & C6) Hv. destruct (width_cases v Hv) as [(-> & _)|(-> & _)]; assumption.
+Qed.
+
+Lemma in_fam_blks l x : In x l -> In (net_blk x) (fam_blks (nver x) l).
+Proof. intros H. unfold fam_blks, fam. apply in_map. apply filter_In. split; [exact H|apply Z.eqb_refl]. Qed.
+
+(* a canonical list, read as a set of keys *)
+Lemma canon_nets_props l : canon_nets l -> Forall wfh l /\ PDisj l /\ NoSib l.
+Proof.
+  intros C. pose proof C as (F & _). split; [exact F|]. rewrite Forall_forall in F. split.
+  - intros x y Hx Hy Nxy (ver & z & I1 & I2).
+    pose proof (F x Hx) as Wx. pose proof (F y Hy) as Wy.
+    pose proof Wx as (Wx' & _). pose proof Wy as (Wy' & _). pose proof Wx' as (Vx & _).
+    assert (Ev: nver y = nver x) by (destruct I1, I2; congruence).
+    destruct (canon_of_ver l (nver x) C Vx) as (A & SS & _).
+    pose proof (sorted_disj _ _ A SS) as Dj.
+    apply in_net_inb in I1; [|exact Wx']. apply in_net_inb in I2; [|exact Wy'].
+    destruct I1 as (_ & I1). destruct I2 as (_ & I2). rewrite Ev in I2.
+    pose proof (in_fam_blks l x Hx) as Bx. pose proof (in_fam_blks l y Hy) as By_. rewrite Ev in By_.
+    pose proof (Dj _ _ z Bx By_ I1 I2) as E. apply Nxy.
+    assert (E1: nf x = nf y) by (change (bv (net_blk x) = bv (net_blk y)); now rewrite E).
+    assert (E2: nplen x = nplen y) by (change (bp (net_blk x) = bp (net_blk y)); now rewrite E).
+    destruct (wfh_view x Wx) as (_ & _ & _ & _ & _ & Lx & _).
+    destruct (wfh_view y Wy) as (_ & _ & _ & _ & _ & Ly & _).
+    assert (nS x = nS y) by (unfold nS, nw; now rewrite Ev, E2).
+    apply wfh_eq; try assumption; [now symmetry|lia].
+  - intros x y Hx Hy (Ev & Sb).
+    pose proof (F x Hx) as ((Vx & _) & _).
+    destruct (canon_of_ver l (nver x) C Vx) as (_ & _ & NS).
+    apply (NS (net_blk x) (net_blk y)); [apply in_fam_blks, Hx|rewrite Ev; apply in_fam_blks, Hy|exact Sb].
+Qed.
+
+Lemma canon_nets_SetInv' l d : canon_nets l -> WD d -> (forall x, In x d <-> In x l) -> SetInv' d.
+Proof.
+  intros C W M. destruct (canon_nets_props l C) as (_ & P & S). split; [exact W|split].
+  - intros x y Hx Hy. apply P; apply M; assumption.
+  - intros x y Hx Hy. apply S; apply M; assumption.
+Qed.
+
+Lemma den_items_MNet D ver x : den_items (map MNet D) ver x <-> den D ver x.
+Proof.
+  unfold den_items, den. split.
+  - intros (m & Hm & I). apply in_map_iff in Hm. destruct Hm as (n & <- & Hn). exists n. split; [exact Hn|exact I].
+  - intros (n & Hn & I). exists (MNet n). split; [apply in_map; exact Hn|exact I].
+Qed.
+
+(* compact(): cidr_merge over the stored keys *)
+Lemma b_set_compact_spec : cidr_merge_spec -> forall D, Forall wf_net D ->
+  exists d', set_compact D = Ok d' /\ SetInv' d' /\ forall ver x, den d' ver x <-> den D ver x.
+Proof.
+  intros CM D FD. destruct (CM (map MNet D)) as (cs & E & C & Dn).
+  { rewrite Forall_forall in *. intros m Hm. apply in_map_iff in Hm. destruct Hm as (n & <- & Hn). apply FD, Hn. }
+  unfold set_compact. rewrite E. cbn [bind]. pose proof C as (Fc & _).
+  destruct (b_fold_dset_spec cs [] Fc WD_nil) as (W & M). fold (dfromkeys cs) in W, M.
+  assert (M': forall x, In x (dfromkeys cs) <-> In x cs) by (intros x; rewrite M; cbn; tauto).
+  exists (dfromkeys cs). split; [reflexivity|]. split; [apply (canon_nets_SetInv' cs); assumption|].
+  intros ver x. rewrite (den_ext cs _ M'), Dn. apply den_items_MNet.
+Qed.
+
+Lemma addr_net_wfh ver v : valid_ver ver = true -> 0 <= v < 2 ^ width ver ->
+  wfh (addr_net ver v) /\ forall ver' x, in_net (addr_net ver v) ver' x <-> ver' = ver /\ x = v.
+Proof.
+  intros Hv Hr. pose proof (width_nonneg ver) as Hw.
+  destruct (mk_wfh ver v (width ver) Hv ltac:(lia) ltac:(lia)) as (A & B & C).
+  { rewrite Z.sub_diag. apply Z.divide_1_l. } { rewrite Z.sub_diag. change (2 ^ 0) with 1. lia. }
+  rewrite Z.sub_diag in C. change (2 ^ 0) with 1 in C.
+  split; [exact A|]. intros ver' x. unfold in_net. fold (addr_net ver v) in B, C. rewrite B, C.
+  change (nver (addr_net ver v)) with ver. split; [intros (E & I); split; [now symmetry|lia]|intros (-> & ->); split; [reflexivity|lia]].
+Qed.
+
+Lemma net_of_int_spec i : 0 <= i < 2 ^ 128 ->
+  exists ver, net_of_int i = Ok (addr_net ver i) /\ valid_ver ver = true /\ 0 <= i < 2 ^ width ver /\
+    ((ver = 4 /\ 0 <= i < 2 ^ 32) \/ (ver = 6 /\ 2 ^ 32 <= i < 2 ^ 128)).
+Proof.
+  intros Hi. unfold net_of_int, addr_of_int.
+  assert (M4: max_int 4 = 2 ^ 32 - 1) by reflexivity. assert (M6: max_int 6 = 2 ^ 128 - 1) by reflexivity.
+  rewrite M4, M6.
+  destruct ((0 <=? i) && (i <=? 2 ^ 32 - 1)) eqn:E1.
+  - exists 4. cbn [bind fst snd]. split; [reflexivity|]. split; [reflexivity|]. change (width 4) with 32. split; [lia|left; lia].
+  - destruct ((2 ^ 32 - 1 <? i) && (i <=? 2 ^ 128 - 1)) eqn:E2.
+    + exists 6. cbn [bind fst snd]. split; [reflexivity|]. split; [reflexivity|]. change (width 6) with 128. split; [lia|right; lia].
+    + exfalso. lia.
+Qed.
+
+Lemma SetInv_wf d : SetInv' d -> Forall wf_net d.
+Proof. intros ((F & _) & _). rewrite Forall_forall in *. intros x Hx. apply F, Hx. Qed.
+
+Theorem add_spec_proof : iprange_to_cidrs_spec -> cidr_merge_spec -> add_spec_b.
+Proof.
+  intros IR CM d e I We. destruct e as [i|ver v|n|ver s e']; cbn [set_add wf_elem in_elem] in *.
+  - destruct (net_of_int_spec i We) as (ver & E & Hv & Hr & Cases). rewrite E. cbn [bind].
+    destruct (addr_net_wfh ver i Hv Hr) as (Wa & Ia).
+    destruct (compact_single_spec d (addr_net ver i) I Wa) as (d' & E' & I' & D').
+    exists d'. split; [exact E'|split; [exact I'|]]. intros ver' x. rewrite D', Ia.
+    split; (intros [H|H]; [now left|right]).
+    + destruct H as (-> & ->). split; [reflexivity|]. destruct Cases as [(-> & ?)|(-> & ?)]; [left|right]; (split; [reflexivity|assumption]).
+    + destruct H as (-> & H). split; [|reflexivity].
+      destruct Cases as [(-> & ?)|(-> & ?)], H as [(-> & ?)|(-> & ?)]; try reflexivity; lia.
+  - destruct We as (Hv & Hr). destruct (addr_net_wfh ver v Hv Hr) as (Wa & Ia).
+    rewrite (ncidr_id _ Wa).
+    destruct (compact_single_spec d (addr_net ver v) I Wa) as (d' & E' & I' & D').
+    exists d'. split; [exact E'|split; [exact I'|]]. intros ver' x. rewrite D', Ia. tauto.
+  - destruct (ncidr_facts n We) as (Wa & _).
+    destruct (compact_single_spec d (ncidr n) I Wa) as (d' & E' & I' & D').
+    exists d'. split; [exact E'|split; [exact I'|]]. intros ver' x. rewrite D', (in_net_ncidr n ver' x We). tauto.
+  - destruct We as (Hv & Hs & He).
+    assert (Hr1: 0 <= s < 2 ^ width ver) by lia. assert (Hr2: 0 <= e' < 2 ^ width ver) by lia.
+    destruct (addr_net_wfh ver s Hv Hr1) as (W1 & I1). destruct (addr_net_wfh ver e' Hv Hr2) as (W2 & I2).
+    destruct (wfh_view _ W1) as (_ & _ & PS1 & _ & _ & L1 & _). destruct (wfh_view _ W2) as (_ & _ & PS2 & _ & _ & L2 & _).
+    pose proof (proj1 (I1 _ _) (in_net_first _ W1)) as (_ & F1).
+    assert (F2: nl (addr_net ver e') = e').
+    { assert (X: in_net (addr_net ver e') ver (nl (addr_net ver e'))) by (unfold in_net; split; [reflexivity|lia]).
+      apply I2 in X. tauto. }
+    destruct (IR (addr_net ver s) (addr_net ver e')) as (cs & Ecs & Ccs & Dcs);
+      [apply W1|apply W2|reflexivity|rewrite F1, F2; lia|].
+    rewrite Ecs. cbn [bind]. apply b_SetInv_iff in I. pose proof I as (Wd & _).
+    pose proof Ccs as (Fcs & _).
+    destruct (b_fold_dset_spec cs [] Fcs WD_nil) as (Wk & Mk). fold (dfromkeys cs) in Wk, Mk.
+    destruct (b_fold_dset_spec (dfromkeys cs) d (proj1 Wk) Wd) as (Wu & Mu). fold (dupdate d (dfromkeys cs)) in Wu, Mu.
+    destruct (b_set_compact_spec CM (dupdate d (dfromkeys cs))) as (d' & E' & I' & D').
+    { destruct Wu as (Fu & _). rewrite Forall_forall in *. intros x Hx. apply Fu, Hx. }
+    exists d'. split; [exact E'|split; [apply b_SetInv_iff; exact I'|]].
+    intros ver' x. rewrite D'. rewrite <- F1, <- F2. change ver with (nver (addr_net ver s)) at 2.
+    rewrite <- Dcs. unfold den. split.
+    + intros (n & Hn & In_). apply Mu in Hn. destruct Hn as [Hn|Hn]; [left; eauto|right].
+      apply Mk in Hn. destruct Hn as [[]|Hn]. eauto.
+    + intros [(n & Hn & In_)|(n & Hn & In_)]; exists n; (split; [apply Mu|exact In_]); [now left|right].
+      apply Mk. now right.
+Qed.
